@@ -1,7 +1,11 @@
 #!/bin/bash
-# Build the framework from files on disk only (offline).
+# Build the framework from files on disk only (offline). Every check rebuilds
+# what depends on /repo again; this just warms the dependency builds.
 set -e
 cd "$(dirname "$0")"
 export CARGO_NET_OFFLINE=true
-(cd sim && cargo build --release --offline 2>&1 | tail -3)
+mkdir -p logs evidence replays
+(cd sim && cargo build --release --offline 2>&1 | tail -2)
+python3 lazy/gen_shadow.py >/dev/null
+(cd lazy && cargo build --release --offline -p lazysim 2>&1 | tail -2)
 echo "setup ok"
